@@ -182,7 +182,7 @@ class StmtMixin:
                     nv = SV(ty, T.list_mk(ty, n, z3.Store(T.list_arr(ty, base.t), z3.If(i < 0, i + n, i), self.coerce(val, ty.t).t)))
                 elif isinstance(ty, T.Tup):
                     # in-place mutation of a mutable component reached through a tuple (write-back of a nested update)
-                    if not quiet: self.oblige(s1, z3.BoolVal(False), "tuple-item-assignment", tgt)
+                    if not quiet and not isinstance(ty, T.Rec): self.oblige(s1, z3.BoolVal(False), "tuple-item-assignment", tgt)
                     kidx = key.t.as_long()
                     comps = [T.tup_get(ty, base.t, j) for j in range(len(ty.ts))]
                     comps[kidx] = self.coerce(val, ty.ts[kidx]).t
@@ -198,9 +198,19 @@ class StmtMixin:
         for s1, c in self.ev(node.test, st):
             b = self.truth(c)
             sa = s1.fork(); sa.assume(b)
-            yield from self.exec_block(node.body, sa)
+            yield from self.explore(lambda: self.exec_block(node.body, sa), list(sa.pc))
             sb = s1.fork(); sb.assume(z3.Not(b))
-            yield from self.exec_block(node.orelse, sb)
+            yield from self.explore(lambda: self.exec_block(node.orelse, sb), list(sb.pc))
+
+    def explore(self, gen_factory, pc):
+        """Run a branch; a construct outside the subset on a branch whose path condition is unsatisfiable is ignored."""
+        try:
+            yield from gen_factory()
+        except VCError:
+            sol = z3.Solver(); sol.set("timeout", 5000)
+            for f in pc: sol.add(f)
+            if sol.check() == z3.unsat: return
+            raise
 
     def st_Try(self, node, st):
         if node.finalbody or node.orelse: raise VCError("try/finally/else")
